@@ -256,10 +256,31 @@ type scenario struct {
 	maxMaj  int
 	maxEval int
 	fLimit  int // min mode: Settings.FuncEvaluations
+	gLimit  int // min mode: Settings.GradEvaluations
+
+	// second != nil: after this run the SAME method / LinesearchMethod / Linesearcher values are used for
+	// another run ("reinit")
+	second *scenario
 }
 
 func (s scenario) name() string {
-	return fmt.Sprintf("%s %s %s %s x0=%v poisonF=%d(%v)", s.mode, s.m.name, s.ls.name, s.obj.name, s.x0, s.poison.atF, s.poison.val)
+	n := fmt.Sprintf("%s %s %s %s x0=%v poisonF=%d(%v)", s.mode, s.m.name, s.ls.name, s.obj.name, s.x0, s.poison.atF, s.poison.val)
+	if s.second != nil {
+		n += fmt.Sprintf(" budget maj=%d eval=%d F=%d G=%d, then the same values on %s x0=%v", s.maxMaj, s.maxEval, s.fLimit, s.gLimit,
+			s.second.obj.name, s.second.x0)
+	}
+	return n
+}
+
+// again forgets what was observed in the run that is over and logs that the same values are used
+// for another run.
+func again(fa *facts, px *lsProxy, emit func(event)) {
+	fa.mu.Lock()
+	fa.haveF, fa.haveG, fa.haveGd, fa.haveMaj, fa.haveND, fa.haveX = false, false, false, false, false, false
+	fa.xk, fa.dir, fa.lastX = nil, nil, nil
+	px.started = false
+	emit(event{"k": "reinit"})
+	fa.mu.Unlock()
 }
 
 // ---------------------------------------------------------------- direct drive
@@ -323,12 +344,21 @@ func xeqTri(x, xk, dir []float64, step float64) int {
 
 // runDirect drives the real optimize.LinesearchMethod (real NextDirectioner, real
 // Linesearcher, both behind recording proxies).  The driver only evaluates what it is asked
-// to evaluate and stops the run on a small gradient or a budget.
+// to evaluate and stops the run on a small gradient or a budget.  With sc.second the same
+// LinesearchMethod, NextDirectioner and Linesearcher values are then initialised again.
 func runDirect(sc scenario, emit func(event)) {
 	fa := &facts{direct: true}
 	px := &lsProxy{inner: sc.ls.mk(), cfg: sc.ls.cfg, fa: fa, emit: emit}
 	_, nd := sc.m.mk(px)
 	lsm := &optimize.LinesearchMethod{NextDirectioner: &ndProxy{nd, fa}, Linesearcher: px}
+	directRun(sc, lsm, px, fa, emit)
+	if sc.second != nil {
+		again(fa, px, emit)
+		directRun(*sc.second, lsm, px, fa, emit)
+	}
+}
+
+func directRun(sc scenario, lsm *optimize.LinesearchMethod, px *lsProxy, fa *facts, emit func(event)) {
 	f, g := sc.obj.wrapped(sc.poison)
 
 	dim := len(sc.x0)
@@ -433,10 +463,20 @@ func (r *minRecorder) Record(loc *optimize.Location, op optimize.Operation, _ *o
 
 // runMinimize runs the real optimize.Minimize with the real Method whose Linesearcher is the
 // recording proxy; the operations LinesearchMethod issues are observed through the Recorder.
+// With sc.second the same Method value (and Linesearcher) is used for another Minimize call.
 func runMinimize(sc scenario, emit func(event), sum *core.Summary) {
 	fa := &facts{}
 	px := &lsProxy{inner: sc.ls.mk(), cfg: sc.ls.cfg, fa: fa, emit: emit}
 	m, _ := sc.m.mk(px)
+	if !minimizeRun(sc, m, px, fa, emit, sum) || sc.second == nil {
+		return
+	}
+	again(fa, px, emit)
+	minimizeRun(*sc.second, m, px, fa, emit, sum)
+}
+
+// minimizeRun reports whether the run came back (so that the values may be used again).
+func minimizeRun(sc scenario, m optimize.Method, px *lsProxy, fa *facts, emit func(event), sum *core.Summary) bool {
 	f, g := sc.obj.wrapped(sc.poison)
 	p := optimize.Problem{Func: f, Grad: g}
 	set := &optimize.Settings{
@@ -444,6 +484,7 @@ func runMinimize(sc scenario, emit func(event), sum *core.Summary) {
 		Converger:       optimize.NeverTerminate{},
 		MajorIterations: sc.maxMaj,
 		FuncEvaluations: sc.fLimit,
+		GradEvaluations: sc.gLimit,
 		Concurrent:      0,
 	}
 	var res *optimize.Result
@@ -452,15 +493,16 @@ func runMinimize(sc scenario, emit func(event), sum *core.Summary) {
 	if o.Hung || o.Panicked {
 		sum.Fail(fmt.Sprintf("linesearch:minimize-%s:%s:%s", map[bool]string{true: "hang", false: "panic"}[o.Hung], sc.ls.cfg.Kind, sc.poison.class()), sc.name()+": "+o.Text, nil)
 		emit(event{"k": "end"})
-		return
+		return false
 	}
 	_ = res
 	es := errString(err)
 	if px.started && (es == "lsfailure" || es == "lsbound" || es == "noprogress" || es == "nondescent") {
 		emit(event{"k": "fail", "err": es, "g0nonneg": 2})
-		return
+		return true
 	}
 	emit(event{"k": "end"})
+	return true
 }
 
 // ---------------------------------------------------------------- scenarios and registration
@@ -503,10 +545,62 @@ func scenarios(mode string, seed int64, per int) []scenario {
 	return out
 }
 
+// reuseScenarios: histories of two runs made with the same method / LinesearchMethod / Linesearcher
+// values.  The first run is stopped by a small budget - direct drive: the number of evaluations
+// performed (1..8) or of major iterations (1..2); Minimize: Settings.GradEvaluations (1..6) or
+// FuncEvaluations (1..12) -, i.e. at every place of LinesearchMethod's cycle including "the
+// evaluation completing an accepted step is outstanding"; the second run is on another objective
+// (another dimension as a rule).  per budgets are taken for each method x Linesearcher pair, rotating
+// through the list so that every count occurs for every kind of Linesearcher.  Only objectives that
+// return finite values are used (what follows a non-finite value is judged by the single runs).
+func reuseScenarios(mode string, seed int64, per int) []scenario {
+	rng := rand.New(rand.NewSource(seed*15485863 + int64(len(mode))))
+	objs := objectives(rng)
+	type budget struct{ maxMaj, maxEval, fLimit, gLimit int }
+	var budgets []budget
+	if mode == "min" {
+		for k := 1; k <= 6; k++ {
+			budgets = append(budgets, budget{maxMaj: 0, fLimit: 400, gLimit: k})
+		}
+		for k := 1; k <= 12; k++ {
+			budgets = append(budgets, budget{maxMaj: 0, fLimit: k})
+		}
+		budgets = append(budgets, budget{maxMaj: 1, fLimit: 400}, budget{maxMaj: 2, fLimit: 400}, budget{maxMaj: 3, fLimit: 400})
+	} else {
+		for k := 1; k <= 8; k++ {
+			budgets = append(budgets, budget{maxMaj: 100, maxEval: k})
+		}
+		budgets = append(budgets, budget{maxMaj: 1, maxEval: 150}, budget{maxMaj: 2, maxEval: 150})
+	}
+	var out []scenario
+	n := 0
+	for _, m := range methods() {
+		for _, ls := range linesearchers() {
+			if ls.group() == "morethuente-bounds" {
+				continue // its single runs are already rejected for a known reason (C19-LS2)
+			}
+			for k := 0; k < per; k++ {
+				b := budgets[n%len(budgets)]
+				n++
+				o1 := objs[rng.Intn(4)] // planted quadratic
+				o2 := objs[rng.Intn(len(objs))]
+				sc := scenario{mode: mode, m: m, ls: ls, obj: o1, x0: dyadic(rng, o1.dim), poison: &poison{},
+					maxMaj: b.maxMaj, maxEval: b.maxEval, fLimit: b.fLimit, gLimit: b.gLimit}
+				sc.second = &scenario{mode: mode, m: m, ls: ls, obj: o2, x0: dyadic(rng, o2.dim), poison: &poison{},
+					maxMaj: 3 + rng.Intn(6), maxEval: 60, fLimit: 120}
+				out = append(out, sc)
+			}
+		}
+	}
+	return out
+}
+
 func record(out *core.Out, args []string, seed int64, sum *core.Summary) error {
-	mode, per, kind, class := "direct", 2, "", ""
+	mode, per, kind, class, reuse := "direct", 2, "", "", false
 	for _, a := range args {
 		switch {
+		case a == "reuse":
+			reuse = true
 		case strings.HasPrefix(a, "mode="):
 			mode = a[5:]
 		case strings.HasPrefix(a, "per="):
@@ -520,7 +614,11 @@ func record(out *core.Out, args []string, seed int64, sum *core.Summary) error {
 	if mode == "fc" {
 		return recordFC(out, args, seed, sum)
 	}
-	for _, sc := range scenarios(mode, seed, per) {
+	list := scenarios(mode, seed, per)
+	if reuse {
+		list = reuseScenarios(mode, seed, per)
+	}
+	for _, sc := range list {
 		// the scenario list is a function of (mode, seed, per); kind= selects a part of it, class= the runs
 		// in which the objective fed (class nonfinF) or did not feed (class finite) a non-finite value
 		if kind != "" && sc.ls.group() != kind {
@@ -573,6 +671,9 @@ func record(out *core.Out, args []string, seed int64, sum *core.Summary) error {
 		dead = true
 		live.Unlock()
 		got := sc.poison.class()
+		if sc.second != nil && got == "finite" {
+			got = sc.second.poison.class()
+		}
 		if got == "nonfinG" {
 			// a non-finite gradient component: nothing is documented about what follows, not judged
 			sum.Count("runs not judged (objective returned a non-finite gradient)", 1)
